@@ -38,7 +38,10 @@ Visible(kids, sel, H) == \E j \in 1..Len(kids) : kids[j].i = sel /\ kids[j].row 
 (* index that is in range in range.                                         *)
 LearnsAtDraw(op) == op \in {"replace", "setcursorabs"}
 CauseAfter(cause, op, n, sel) ==
-  IF InRange(n, sel) THEN "" ELSE IF LearnsAtDraw(op) THEN op ELSE cause
+  IF InRange(n, sel) THEN ""
+  ELSE IF op = "setcursorabs" THEN op       \* put beyond the items by this very operation
+  ELSE IF cause # "" THEN cause             \* it already was (a replacement does not move it)
+  ELSE IF LearnsAtDraw(op) THEN op ELSE ""  \* the replacement removed the selected item / not tolerated
 OpRangeOK(cause, op, n, sel) == InRange(n, sel) \/ CauseAfter(cause, op, n, sel) # ""
 
 (* WHEN the selected item must be shown.  "After a selection change         *)
